@@ -527,6 +527,7 @@ pub fn history(cfg: &Cfg, rep: &mut Report, h: u64, steps: usize, mode: Mode) {
         };
         let want = m.predict(&op, cur, max_live);
         let free_before = m.s.bal.iter().zip(&m.s.frozen).map(|(b, f)| b - f).collect::<Vec<_>>();
+        let _: Result<(), Fail> = invoke(&r.w.env, &r.comp, "clear_questions", args!(&r.w.env));
         let got = exec(&r, &op);
         let evs = obs::events(&r.w.env);
         rep.evaluations += 1;
@@ -612,6 +613,19 @@ pub fn history(cfg: &Cfg, rep: &mut Report, h: u64, steps: usize, mode: Mode) {
                     rep.check("log", new_entries == expected_log.as_slice(), &format!("C04/log/{site}/compliance-notification"), || {
                         format!("{op:?}: compliance contract received {new_entries:?}, expected {expected_log:?}")
                     });
+                    // the approval that was asked for concerned exactly this movement
+                    let qs: SVec<HookCall> = invoke(&r.w.env, &r.comp, "questions", args!(&r.w.env)).unwrap();
+                    let asked: Vec<(u32, usize, usize, i128, bool)> = qs.iter().map(|q| (q.kind, r.idx(&q.a), r.idx(&q.b), q.amount, q.token == r.tok)).collect();
+                    let want_q: Option<(u32, usize, usize, i128, bool)> = match &op {
+                        Op::Transfer { from, to, a } | Op::TransferFrom { from, to, a, .. } => Some((3, *from, *to, *a, true)),
+                        Op::Mint { to, a } => Some((4, *to, *to, *a, true)),
+                        _ => None,
+                    };
+                    if let Some(wq) = want_q {
+                        rep.check("log", !asked.is_empty() && asked.iter().all(|q| *q == wq), &format!("C04/log/{site}/compliance-asked-about-another-movement"), || {
+                            format!("{op:?} succeeded; the compliance contract was asked (kind 3 can_transfer / 4 can_create, from, to, amount, right token) {asked:?}, expected only {wq:?}")
+                        });
+                    }
                 }
                 // supply delta (C01's statement)
                 if mode == Mode::Conservation {
